@@ -164,8 +164,10 @@ Definition create_scales (rmin rmax : list Q) (u : option unit_t) (rw : option Q
   end.
 
 (* _compute_angle, per unit.  pi180 = the float pi/180 np.deg2rad multiplies with,
-   DA = angular diameter distance [Mpc], DC = comoving distance [Mpc] at the redshift.
-   (the code applies no factor h for kpc/h and Mpc/h: the number is divided by D_C in Mpc) *)
+   DA = angular diameter distance [Mpc], DC = TRANSVERSE comoving distance [Mpc] at the redshift - the distance measure
+   options.Unit documents for kpc/h and Mpc/h; it equals the line-of-sight comoving distance only without curvature
+   (the pinned code divided by the line-of-sight distance: F31).
+   (the code applies no factor h for kpc/h and Mpc/h: the number is divided by the distance in Mpc) *)
 Definition angle (u : unit_t) (pi180 DA DC r : Q) : Q :=
   match u with
   | Urad => r
